@@ -206,12 +206,15 @@ class DotInvert(Sub):
         return st.fixed_dictionaries({'rank': st.integers(1, 5), 'length': st.integers(1, 64), 'seedA': seed, 'seedB': seed,
                                       'space': st.sampled_from(SPACES), 'how': st.sampled_from(['dot', 'dot-inplace', 'matmul', 'imatmul']),
                                       'inv_inplace': st.booleans(), 'dom': specs.fl(1.5, 6.0), 'scale': specs.logfloat(-3, 3),
-                                      'right': st.sampled_from(['other', 'other', 'other', 'self', 'same-buffer'])})
+                                      'right': st.sampled_from(['other', 'other', 'other', 'self', 'same-buffer']),
+                                      # data written with integer literals (np.eye(dtype=int), np.arange ...): the inverse is still the real inverse
+                                      'dtype': st.sampled_from(['float', 'float', 'float', 'int64', 'int32'])})
 
     def check(self, spec):
         P = target()
         out = Outcome()
         sig = PID + '/dot-invert/'
+        out.label('invert-dtype=' + spec.get('dtype', 'float'))
         L, R = spec['length'], spec['rank']
         A = make(spec['seedA'], L, R, spec['space'])
         B = make(spec['seedB'], L, R, spec['space'])
@@ -251,6 +254,8 @@ class DotInvert(Sub):
         # invert on a diagonally dominant (well-conditioned) array
         g = rnd(spec['seedA'] + 1, (L, R, R), -1.0, 1.0)
         M = (g + np.eye(R)[None, :, :] * (R * spec['dom'])) * spec['scale']
+        if spec.get('dtype', 'float') != 'float':
+            M = (np.rint(3 * g) + np.eye(R)[None, :, :] * (3 * R + 1 + int(spec['dom']))).astype(spec['dtype'])
         MA = P.MatrixArray(length=L, rank=R, data=M.copy(), space=getattr(P.Space, spec['space']))
         inv = MA.invert(inplace=spec['inv_inplace'])
         if inv.data.shape != M.shape:
